@@ -86,6 +86,8 @@ impl UdpSocket {
             self._io.reset();
             // this is an earlier return try for nonblocking read
             match self.sys.send_to(buf, &addr) {
+                #[cfg(may_verif)]
+                ref r if crate::verif::sys(&self._io.io_flag, "sys.send_to", r) => unreachable!(),
                 Ok(n) => return Ok(n),
                 Err(e) => {
                     // raw_os_error is faster than kind
@@ -110,6 +112,8 @@ impl UdpSocket {
             self._io.reset();
             // this is an earlier return try for nonblocking read
             match self.sys.recv_from(buf) {
+                #[cfg(may_verif)]
+                ref r if crate::verif::sys(&self._io.io_flag, "sys.recv_from", r) => unreachable!(),
                 Ok(n) => return Ok(n),
                 Err(e) => {
                     // raw_os_error is faster than kind
@@ -134,6 +138,8 @@ impl UdpSocket {
             self._io.reset();
             // this is an earlier return try for nonblocking write
             match self.sys.send(buf) {
+                #[cfg(may_verif)]
+                ref r if crate::verif::sys(&self._io.io_flag, "sys.send", r) => unreachable!(),
                 Ok(n) => return Ok(n),
                 Err(e) => {
                     // raw_os_error is faster than kind
@@ -163,6 +169,8 @@ impl UdpSocket {
             self._io.reset();
             // this is an earlier return try for nonblocking read
             match self.sys.recv(buf) {
+                #[cfg(may_verif)]
+                ref r if crate::verif::sys(&self._io.io_flag, "sys.recv", r) => unreachable!(),
                 Ok(n) => return Ok(n),
                 Err(e) => {
                     // raw_os_error is faster than kind
